@@ -350,11 +350,11 @@ PROPS['C18'] = dict(
         J('h_poseidon', 'san2', 1, 1, only='c07.lengths,c08.enum', wq=8, wt=16, args=['--enumerate', '--level', '0'], tag='enum', crash_only=True, class_prefix='poseidon-avx2:'),
         # kernels with exact-size coefficient arrays; cubic extension (batchInverse VLAs); all 164 + 156 overloads in exact-size arenas
         J('h_lanes', 'san5', 60_000, 3_000_000, only='c13,c14', wq=6, wt=16, crash_only=True, class_prefix='matrix:'),
-        J('h_cubic', 'san2', 150_000, 5_000_000, wq=4, wt=16, crash_only=True, class_prefix='cubic:'),
-        J('h_cubic_batch', 'san5', 160_000, 6_000_000, wq=8, wt=16, crash_only=True, class_prefix='cubic-batch:'),
-        J('h_wrappers', 'san5', 120_000, 6_000_000, only='c17.copy,c17.add,c17.sub,c17.mul,c17.mixed', wq=8, wt=16, tag='rows', crash_only=True, class_prefix='wrappers:'),
+        J('h_cubic', 'san2', 150_000, 2_000_000, wq=4, wt=16, crash_only=True, class_prefix='cubic:'),
+        J('h_cubic_batch', 'san5', 160_000, 1_200_000, wq=8, wt=16, crash_only=True, class_prefix='cubic-batch:'),
+        J('h_wrappers', 'san5', 120_000, 1_200_000, only='c17.copy,c17.add,c17.sub,c17.mul,c17.mixed', wq=8, wt=16, tag='rows', crash_only=True, class_prefix='wrappers:'),
         J('h_wrappers', 'san2', 4000, 200_000, only='c17.par', wq=8, wt=16, tag='par', crash_only=True, class_prefix='wrappers:'),
-        J('h_scalar2', 'san2', 200_000, 10_000_000, only='c15', wq=4, wt=8, crash_only=True, class_prefix='conversions:'),
+        J('h_scalar2', 'san2', 200_000, 4_000_000, only='c15', wq=4, wt=16, crash_only=True, class_prefix='conversions:'),
         # uninitialised stack reads: pattern-initialised automatic variables must not change any result (oracle = the functional oracles)
         J('h_ntt', 'init2', 4000, 200_000, only='c19.history,c05.random', wq=8, wt=16, args=['--level', '0'], tiers=['thorough'], tag='rnd', crash_only=True, class_prefix='autoinit:ntt:'),
         J('h_poseidon', 'init2', 20_000, 1_000_000, only='c06.perm,c07.random,c08.random', wq=8, wt=16, tiers=['thorough'], tag='rnd', crash_only=True, class_prefix='autoinit:poseidon:'),
